@@ -79,6 +79,7 @@ type Opts struct {
 	RPCAddr    string // unix://... of the harness tx-index endpoint
 	CustomPos  bool   // InitGenesis keeps the genesis pos params (module path overwrites them with defaults)
 	NoAnteNode bool   // leave tmNode nil (only for store-level tests)
+	PosFirst   bool   // InitGenesis order pos, auth, gov (a genesis file without an explicit supply: auth sums what is in the store)
 }
 
 // App is one assembled application instance.
@@ -152,7 +153,11 @@ func NewApp(db dbm.DB, o Opts) (*App, error) {
 		gov.NewAppModule(a.GK),
 		a.Ext,
 	)
-	a.MM.SetOrderInitGenesis(auth.ModuleName, posTypes.ModuleName, govTypes.ModuleName, ExtName)
+	if o.PosFirst {
+		a.MM.SetOrderInitGenesis(posTypes.ModuleName, auth.ModuleName, govTypes.ModuleName, ExtName)
+	} else {
+		a.MM.SetOrderInitGenesis(auth.ModuleName, posTypes.ModuleName, govTypes.ModuleName, ExtName)
+	}
 	a.MM.SetOrderBeginBlockers(posTypes.ModuleName, govTypes.ModuleName, ExtName)
 	a.MM.SetOrderEndBlockers(posTypes.ModuleName, govTypes.ModuleName, ExtName)
 	a.MM.RegisterRoutes(bapp.Router(), bapp.QueryRouter())
